@@ -186,3 +186,6 @@ Fixpoint fvars (e : expr) : list (bool * Z) :=
   | BVVe _ _ | BoolVe _ => []
   | Node _ _ args _ => flat_map fvars args
   end.
+
+(* a Boolean expression holds under rho *)
+Definition holds (rho : env) (c : expr) : bool := match eval rho c with Some (VBool true) => true | _ => false end.
